@@ -153,6 +153,8 @@ func (x *Exec) call(st *State, call *ast.CallExpr) []Term {
 		if fn.Pkg() != nil {
 			q = fn.Pkg().Name() + "." + q
 		}
+	} else {
+		q = x.exprText(call.Fun) // calls through function values are anchored by their source text
 	}
 	x.runGhost(st, x.ct.CallGhost["before@"+q], "before@"+q, call)
 	rs := x.callInner(st, call)
